@@ -6,7 +6,7 @@ PROP = {
         "level_note": "Trusts the sequential guard model and the lvl/err table in harness/mon/src/bin/c05.rs (the table follows the documented control parameters: panic => panic_lvl or error + err; Err => err_lvl, else the attribute's level, else error; Ok => ok_lvl, else the attribute's level). Attributes on block expressions need nightly features and are only exercised in the Miri lane.",
         "technique": "runtime monitoring: completion counting per guard / invocation against a sequential model; hand-written macro forms x exit paths; Miri lane (tiny) that also builds the block forms",
         "assumptions": [
-            "when the clock gives no reading at start or at completion the extent is unconstrained",
+            "when the clock gives no reading at start or at completion the statement does not fix the extent; for SpanGuard programs and completions that go through completion::Default / Timer::extent (documented: None without a reading) an extent, if present, must be the range of two readings that exist; the Result-aware completions (ok_lvl / err_lvl / err) are only counted there (they emit a point extent from a third reading on the pinned tree)",
             "ids on the span event are only required when it is completed inside its frame by the real default completion",
             "user props that collide with the span's own keys (evt_kind, span_name) are not generated",
         ],
